@@ -28,7 +28,7 @@ func usable(toks []string, ics []string) []string {
 	for _, t := range toks {
 		ok := true
 		for _, ic := range allICs {
-			if strings.HasSuffix(t, ":"+ic+"}") && !contains(ics, ic) {
+			if strings.Contains(t, ":"+ic+"}") && !contains(ics, ic) {
 				ok = false
 			}
 		}
